@@ -11,7 +11,10 @@ LEVEL_TEXT = ('Generated differentiable module programs (tanh only: params, Dens
               'of differentiated collections (params, batch_stats, both), has_aux, 1-3 primal inputs of pytree shape and random cotangents / '
               'tangents, and compared with jax.vjp / jax.jvp / jax.grad of the pure apply function; non-selected collections must get no '
               'gradient, counters must advance exactly once per forward pass; nn.custom_vjp must keep the forward value and use the '
-              'tagged backward rule only when differentiating.')
+              'tagged backward rule only when differentiating.'
+              ' Further streams: outer differentiation of the lifted program, custom_vjp input rules on variable-free'
+              ' modules, modules that draw random numbers (all transforms and custom_vjp under jit), float collections'
+              ' written by the forward pass while differentiated.')
 LEVEL_NOTE = 'JAX autodiff of module.apply is the trusted reference; float32 same-program tolerance.'
 TECHNIQUE = 'runtime monitoring: relational oracle against jax.vjp/jvp/grad of the functionalised module program'
 RULE = ('case = (transform, inner program, differentiated collections, has_aux, number/pytree shape of primals, cotangent seed). distinct = '
